@@ -351,7 +351,6 @@ Proof.
     split; [intros Hd; congruence|]. split; [repeat split; intros; discriminate|]. intros; discriminate.
 Qed.
 
-Lemma gens_run_loop_none : True. Proof. exact I. Qed.
 
 Lemma Inv_step valid sg e : Inv valid sg -> Inv valid (fst (istep valid sg e)).
 Proof.
